@@ -7,7 +7,16 @@
 #include <random>
 #include <string>
 
+#include <vector>
+
 #include "corecel/data/CollectionBuilder.hh"
+#include "corecel/math/ArrayOperators.hh"
+#include "corecel/math/ArrayUtils.hh"
+#include "celeritas/grid/GenericGridData.hh"
+#include "celeritas/optical/CerenkovData.hh"
+#include "celeritas/optical/CerenkovGenerator.hh"
+#include "celeritas/optical/MaterialData.hh"
+#include "celeritas/optical/MaterialView.hh"
 #include "celeritas/optical/ScintillationData.hh"
 #include "celeritas/optical/ScintillationGenerator.hh"
 #include "native_stubs.hh"
@@ -15,8 +24,109 @@
 using namespace celeritas;
 using namespace celeritas::optical;
 
+//   c20 photon_battery       : Cerenkov and scintillation photons for three parent steps (straight; curved: path length 1 > chord 0.8;
+//                              pre- and post-step speed equal) sampled with std::mt19937: finite positive energy (Cerenkov: inside the table),
+//                              unit direction / polarisation, perpendicular, Cerenkov cone about the chord direction, position on the segment
+//                              [pre, post], finite time >= pre-step time
+static int photon_battery()
+{
+    std::vector<real_type> const energy = {2.0e-6, 3.0e-6, 4.0e-6};
+    std::vector<real_type> const rindex = {1.33, 1.34, 1.36};
+    HostVal<MaterialParamsData> mat_host;
+    {
+        auto reals = make_builder(&mat_host.reals);
+        GenericGridRecord rec;
+        rec.grid = reals.insert_back(energy.begin(), energy.end());
+        rec.value = reals.insert_back(rindex.begin(), rindex.end());
+        make_builder(&mat_host.refractive_index).push_back(rec);
+        make_builder(&mat_host.optical_id).push_back(OpticalMaterialId{0});
+    }
+    HostCRef<MaterialParamsData> mat_ref;
+    mat_ref = mat_host;
+    HostVal<CerenkovData> cer_host;
+    {
+        std::vector<real_type> integral(energy.size(), 0);
+        for (std::size_t i = 1; i < energy.size(); ++i)
+            integral[i] = integral[i - 1] + 0.5 * (energy[i] - energy[i - 1]) * (1 / (rindex[i - 1] * rindex[i - 1]) + 1 / (rindex[i] * rindex[i]));
+        auto reals = make_builder(&cer_host.reals);
+        GenericGridRecord rec;
+        rec.grid = reals.insert_back(energy.begin(), energy.end());
+        rec.value = reals.insert_back(integral.begin(), integral.end());
+        make_builder(&cer_host.angle_integral).push_back(rec);
+    }
+    HostCRef<CerenkovData> cer_ref;
+    cer_ref = cer_host;
+    MaterialView material{mat_ref, OpticalMaterialId{0}};
+
+    HostVal<ScintillationData> data;
+    make_builder(&data.resolution_scale).push_back(1);
+    ScintRecord comp;
+    comp.lambda_mean = 4e-5; comp.lambda_sigma = 1e-6; comp.rise_time = 1e-9; comp.fall_time = 5e-9;
+    auto comps = make_builder(&data.scint_records).insert_back(&comp, &comp + 1);
+    real_type one = 1;
+    auto pdf = make_builder(&data.reals).insert_back(&one, &one + 1);
+    MatScintSpectrumRecord mat;
+    mat.yield_per_energy = 1000; mat.yield_pdf = pdf; mat.components = comps;
+    make_builder(&data.materials).push_back(mat);
+    HostCRef<ScintillationData> sref;
+    sref = data;
+
+    struct Step { char const* name; double len; Real3 pre, post; double vpre, vpost; };
+    Step const steps[] = {
+        {"straight step", 1.0, {1, 2, 3}, {1.6, 2, 3.8}, 0.99, 0.98},
+        {"curved step (path length 1, chord 0.8)", 1.0, {1, 2, 3}, {1.48, 2, 3.64}, 0.99, 0.98},
+        {"step without speed change", 1.0, {1, 2, 3}, {1.6, 2, 3.8}, 0.99, 0.99},
+    };
+    int bad = 0;
+    double const tol = 1e-6;
+    for (Step const& st : steps)
+    {
+        GeneratorDistributionData dist;
+        dist.num_photons = 2000; dist.time = 1e-9; dist.step_length = st.len; dist.charge = units::ElementaryCharge{-1}; dist.material = OpticalMaterialId{0};
+        dist.points[StepPoint::pre].speed = units::LightSpeed{st.vpre}; dist.points[StepPoint::pre].pos = st.pre;
+        dist.points[StepPoint::post].speed = units::LightSpeed{st.vpost}; dist.points[StepPoint::post].pos = st.post;
+        Real3 const chord = st.post - st.pre;
+        Real3 const pdir = make_unit_vector(chord);
+        double const chord_len = norm(chord);
+        double const inv_beta = 2 / (st.vpre + st.vpost);
+        GenericCalculator calc_n = material.make_refractive_index_calculator();
+        for (int kind = 0; kind < 2; ++kind)
+        {
+            std::mt19937 rng(2024);
+            CerenkovGenerator gen_c(material, cer_ref, dist);
+            ScintillationGenerator gen_s(sref, dist);
+            for (unsigned i = 0; i < dist.num_photons; ++i)
+            {
+                TrackInitializer p = kind == 0 ? gen_c(rng) : gen_s(rng);
+                double e = p.energy.value();
+                bool ok = std::isfinite(e) && e > 0;
+                if (kind == 0) ok = ok && e >= energy.front() && e <= energy.back();
+                ok = ok && std::fabs(norm(p.direction) - 1) < tol && std::fabs(norm(p.polarization) - 1) < tol && std::fabs(dot_product(p.direction, p.polarization)) < tol;
+                if (kind == 0) ok = ok && std::fabs(dot_product(p.direction, pdir) - inv_beta / calc_n(e)) < tol;
+                Real3 rel = p.position - st.pre;
+                double t = dot_product(rel, pdir);
+                Real3 perp = rel; axpy(-t, pdir, &perp);
+                ok = ok && t >= -tol && t <= chord_len + tol && norm(perp) < tol;
+                ok = ok && std::isfinite(p.time) && p.time >= dist.time;
+                if (!ok)
+                {
+                    if (bad < 3)
+                        std::printf("REPRODUCED %s photon %u of the %s (std::mt19937(2024)): E=%g |dir|=%.9f |pol|=%.9f dir.pol=%.3e cos(dir,parent)=%.9f [1/(n beta)=%.9f] along-step=%.9f of chord %.9f off-axis=%.3e time=%g (pre-step %g)\n",
+                                    kind == 0 ? "Cerenkov" : "scintillation", i, st.name, e, norm(p.direction), norm(p.polarization), dot_product(p.direction, p.polarization),
+                                    dot_product(p.direction, pdir), kind == 0 ? inv_beta / calc_n(e) : 0.0, t, chord_len, norm(perp), (double)p.time, (double)dist.time);
+                    ++bad;
+                }
+            }
+        }
+    }
+    if (bad) { std::printf("photon_battery: %d invalid photons\n", bad); return 1; }
+    std::printf("ok photon_battery: 12000 photons valid\n");
+    return 0;
+}
+
 int main(int argc, char** argv)
 {
+    if (argc >= 2 && std::string(argv[1]) == "photon_battery") return photon_battery();
     if (argc < 2 || std::string(argv[1]) != "scint_energy_battery") return 2;
     HostVal<ScintillationData> data;
     make_builder(&data.resolution_scale).push_back(1);
